@@ -34,12 +34,22 @@
     `C04_shape_add`, `C04_shape_remove`, `C04_count_step_add`, `C04_count_step_remove`,
     `C04_count_step`.
 
-  NOT PROVED: `B1_add` and `B2_remove` (the write paths refine the canonical layout) for all table
-  sizes; they stay visible `def … : Prop` hypotheses of `C04_partial_B`, whose conclusion is
-  `C04_full_statement`.  They are supported by BOUNDED CHECKS (tests by kernel evaluation, not
-  proofs) in `PyProb/Lemmas/QFBounded*.lean`: all canonical tables of the 8-slot filter over two
-  universes (128 + 64 sets, every element inserted into / removed from every set).
+  * Layer B (write paths), unconditionally — added after the first version of this file:
+    `C04_B1_add : B1_add` (`_add` maps `layout S` to `layout (S ∪ {x})`, proof in
+    `Lemmas/QFExt.lean`, `QFWriteAdd*.lean`) and `C04_B2_remove : B2_remove` (`_remove_element` maps
+    `layout S` to `layout (S ∖ {x})`: the metadata repair pass restores canonical form; proof in
+    `Lemmas/QFExtRemove.lean`, `QFWriteRemove*.lean`), for all table sizes and all canonical sets.
+    Hence **`C04_exact_set : C04_full_statement`** is a theorem without hypotheses, and so are
+    `C04_remove_total` and `C04_add_outcome`.
+
+  NOT PROVED: that the recursion budget the model gives `add_alt`/`resize`/`merge`
+  (`QF.budgetOf`) always suffices — `C04_exact_set` is stated for histories in which no call raised
+  or reported `diverged`, for an arbitrary budget; termination of `remove`, of look-up and iteration,
+  and of `add` without auto-resize IS proved.  The bounded checks of `PyProb/Lemmas/QFBounded*.lean`
+  (all canonical tables of the 8-slot filter over two universes) are kept as tests.
 -/
+import PyProb.Lemmas.QFWriteAdd
+import PyProb.Lemmas.QFWriteRemove
 import PyProb.Lemmas.QFSet
 import PyProb.Lemmas.QFBasic
 import PyProb.Lemmas.QFLayout
@@ -826,6 +836,41 @@ theorem C04_partial_add_outcome_B (hB1 : B1_add) (hB2 : B2_remove) (q : Int) (b 
     if h ∉ a.H ∧ a.H.length + 1 ≥ 2 ^ a.q then step (b + 1) s (.add h) = .error .qfError
     else ∃ t, step (b + 1) s (.add h) = .ok t :=
   C04_partial_add_outcome C04_contained C04_hashes hB1 hB2 q b ops hops s0 s hnew hrun h hh
+
+/-! ### Layer B proved: the exact-set theorem is unconditional -/
+
+/-- **Layer B1** (all table sizes, all canonical sets): `_add` maps the canonical table of `S` to the
+    canonical table of `S ∪ {x}` — proved in `Lemmas/QFWriteAdd*.lean` -/
+theorem C04_B1_add : B1_add :=
+  fun q auto S x hc hx hroom hnew => QF.add_layout q auto S x hc hx hroom hnew
+
+/-- **Layer B2**: `_remove_element` maps the canonical table of `S` to that of `S ∖ {x}` (the metadata
+    repair pass does restore canonical form) — proved in `Lemmas/QFWriteRemove*.lean` -/
+theorem C04_B2_remove : B2_remove :=
+  fun q auto S x hc hx => QF.remove_layout q auto S x hc hx
+
+/-- **C04, unconditional**: for every quotient size 3..31, auto-expand on or off, and every history
+    of add / remove / resize (manual or automatic) / merge on 32-bit hashes in which no call raised:
+    the table is the canonical table of the set of hashes added and not removed since, `check` is
+    exact membership, `get_hashes` is that set without duplicates, and `elements_added` is its size -/
+theorem C04_exact_set : C04_full_statement := C04_partial_B C04_B1_add C04_B2_remove
+
+/-- `remove` never raises and never diverges on a reachable state -/
+theorem C04_remove_total (q : Int) (auto : Bool) (b : Nat)
+    (ops : List Op) (hops : ∀ op ∈ ops, op.InRange) (s0 s : QF) (hnew : QF.new q auto = .ok s0)
+    (hrun : run b s0 ops = .ok s) (h : Nat) (hh : h < 2 ^ 32) :
+    ∃ t, step b s (.remove h) = .ok t :=
+  C04_partial_remove_total_B C04_B1_add C04_B2_remove q auto b ops hops s0 s hnew hrun h hh
+
+/-- without auto-resize `add` is refused (QuotientFilterError) exactly for a new hash into a table
+    holding `size − 1` hashes, and otherwise returns normally — it never diverges -/
+theorem C04_add_outcome (q : Int) (b : Nat)
+    (ops : List Op) (hops : ∀ op ∈ ops, op.InRange) (s0 s : QF) (hnew : QF.new q false = .ok s0)
+    (hrun : run (b + 1) s0 ops = .ok s) (h : Nat) (hh : h < 2 ^ 32) :
+    let a := absRun false ⟨q.toNat, []⟩ ops
+    if h ∉ a.H ∧ a.H.length + 1 ≥ 2 ^ a.q then step (b + 1) s (.add h) = .error .qfError
+    else ∃ t, step (b + 1) s (.add h) = .ok t :=
+  C04_partial_add_outcome_B C04_B1_add C04_B2_remove q b ops hops s0 s hnew hrun h hh
 
 /-! ### an unconditional instance: unbounded histories over a bounded universe
 
